@@ -11,7 +11,7 @@ PROPS_VO = "Props/C01"
 AXIOMS_OK = []
 
 ALLOC_BOUND, NBR_BOUND, SIZE_BOUND, STEP_BOUND, DEPTH_BOUND, RAND_POINTS_BOUND = 100000, 1000, 200000, 10000, 5000, 1000      # = Suites/SNoPanic.v
-QUICK_BOUNDS = "allocation sizes and vector lengths <= 3000, size measure <= 20000"                                       # = quick_bounds there
+QUICK_BOUNDS = "allocation sizes <= 3000, vector lengths <= 9000, size measure <= 60000"                                       # = quick_bounds there
 PARTIAL = ("native stack exhaustion by recursion over very deeply nested items (Item::size, Display, Drop, rec_push), allocation failure and "
            "process aborts cannot be exhibited by the Gallina model; they are covered only by stream (d) inside the envelope")
 ASSUMPTIONS = [
@@ -83,11 +83,15 @@ def stream_a(rng, tier, impl, modelled):
     skipped = [n for n in impl if n not in modelled]
     dense = tier != "quick"
     nrand = {"quick": 20, "thorough": 200, "search": 120}[tier]
+    nscale = {"quick": 4, "thorough": 30, "search": 12}[tier]
     cases = []
     for nm in sweep:
         cases += boundgen.cases(rng, nm, impl, safe, dense=dense)
         for _ in range(nrand):
             cases.append(stepgen.step_case(rng, nm, impl, safe))
+        if not nm.startswith("GRAPH.") and nm not in stepgen.NBR:
+            for _ in range(nscale):          # one component of the state LARGE: sizes at / around powers of two
+                cases.append(stepgen.step_case(rng, nm, impl, safe, scale=1.0))
     if "EXEC.CMD" in modelled:
         cases += boundgen.cmd_cases(rng, harmless=(tier == "thorough"))
     n0 = len(cases)
